@@ -30,11 +30,27 @@ func c16Call(c *core.Ctx, s string) {
 		u   *stun.URI
 		err error
 	)
-	p, stack := safely(func() { u, err = stun.ParseURI(s) })
+	// the argument is a string: immutable. It is handed over as a private heap copy whose content is compared afterwards
+	// (a parser that "normalises" in place through unsafe would fault on a constant and silently edit a heap string).
+	arg := strings.Clone(s)
+	p, stack := safely(func() {
+		u, err = stun.ParseURI(arg)
+		if err != nil {
+			_ = err.Error() // "returns an error": one that can be looked at (formatted, logged) like any other
+			if len(arg) < 256 {
+				_ = fmt.Sprintf("%v|%+v|%q", err, err, err)
+			}
+		} else if u != nil {
+			_ = u.String()
+		}
+	})
 	if p != nil {
 		reportPanic(c, "ParseURI", p, stack, map[string]interface{}{"input": s, "input_hex": core.Hex([]byte(s))})
 
 		return
+	}
+	if arg != s {
+		c.Violate("input-mutated", "input-mutated", map[string]interface{}{"input": s, "after_the_call": arg})
 	}
 	if (u == nil) == (err == nil) {
 		c.Violate("neither-uri-nor-error", "neither", map[string]interface{}{"input": s})
@@ -198,11 +214,19 @@ func c16(c *core.Ctx) {
 	}
 	// very long hosts made of one repeated unit, for every character class (a per-call cost that grows faster than the
 	// input shows as a call that does not return within the watchdog)
-	units := []string{"a", "A", "Z", "0", ".", "-", "_", "~", "%41", "%", "ü", "Ü", "aA", "A.", "a-", "[", "]", ":", "@", "!", "$", "&", "'", "(", "*", "+", ",", ";", "="}
+	units := []string{"a", "A", "Z", "0", ".", "-", "_", "~", "%41", "%", "ü", "Ü", "aA", "A.", "a-", "[", "]", ":", "@", "!", "$", "&", "'", "(", "*", "+", ",", ";", "=",
+		"?&", "?a&", "?=&", "?;", "?transport=udp&", "?x=1&", "?%26&"} // the last ones: a host, then a query made of the repeated unit
 	c.Section("long-inputs", int64(len(units)*3), func(i int64, _ *gen.Rand) {
 		unit := units[int(i)%len(units)]
 		size := []int{64 << 10, 1 << 20, 4 << 20}[int(i)/len(units)]
-		s := []string{"stun:", "turns:", "turn:"}[int(i)%3] + strings.Repeat(unit, size/len(unit)) + []string{"", ":3478", "?transport=udp"}[int(i)%3]
+		head := ""
+		if len(unit) > 1 && unit[0] == '?' {
+			head, unit = "example.org:3478?", unit[1:]
+		}
+		s := []string{"stun:", "turns:", "turn:"}[int(i)%3] + head + strings.Repeat(unit, size/len(unit)) + []string{"", ":3478", "?transport=udp"}[int(i)%3]
+		if head != "" {
+			s = []string{"turn:", "turns:", "stun:"}[int(i)%3] + head + strings.Repeat(unit, size/len(unit)) + []string{"", "transport=udp", "x"}[int(i)/len(units)]
+		}
 		t0 := time.Now()
 		c16Call(c, s)
 		c.Max("max_ns_per_byte_for_inputs_over_4KiB", time.Since(t0).Nanoseconds()/int64(len(s)))
@@ -247,7 +271,7 @@ func c16(c *core.Ctx) {
 }
 
 func c16Random(r *gen.Rand, i int64) string {
-	hosts := []string{"1.2.3.4.5", "1.2.3.4.5.6.7.8.9", "0.0.0.0.0", "256.1.1.1", "01.02.03.004", "1.2.3", "1..2", "0x7f.1", "1.2.3.4.", "999999999999", "[1.2.3.4.5]",
+	hosts := []string{"[2001:DB8::1]", "[2001:db8::A]", "[FE80::ABCD%25ETH0]", "[::FFFF:1.2.3.4]", "EXAMPLE.ORG", "[::g]", "[:::]", "[1::2::3]", "1.2.3.4.5", "1.2.3.4.5.6.7.8.9", "0.0.0.0.0", "256.1.1.1", "01.02.03.004", "1.2.3", "1..2", "0x7f.1", "1.2.3.4.", "999999999999", "[1.2.3.4.5]",
 		"[fe80::1%\xe9th0]", "[fe80::1%\xc3\xa9th0]", "[::1%\xff]", "[fe80::1%25\xe2\x82\xac]", "[stun.example.org]", "[localhost]",
 		"example.org", "a", "1.2.3.4", "[::1]", "[fe80::1%25eth0]", "[fe80::1%eth0]", "[::1", "::1]", "[]", "[[::1]]", "[::1]x", "host:", ":", "", "ü.example", "%41", "a@b", "[/]", "[/a]", "[a/b]", "[example.org]", "[1.2.3.4]", "[.]",
 		"a%2541.example.org", "a%3Ab.example.org", "%5Bexample%5D", "%2525", "A.Example.ORG"}
